@@ -101,6 +101,19 @@ def gen_program(rnd, pid, small=False):
             th[:] = [op for op in th if not (op[0] in ('sched', 'sched_abs') and op[2] in (x, y))]
         threads[0] += [['sched', c, x, d], ['sched', c, y, d]]
         tasks[x]['script'][0]['do'] = [['clear', c]]
+    if tempo and rnd.random() < 0.2 and len(top) >= 2:
+        # motif: a task slows its tempo clock down and then returns / raises / stops, while another task of the same
+        # clock is due shortly after it (with a late wake-up both look due in one pass)
+        c = rnd.choice(list(tempo))
+        tempo[c] = rnd.choice([[2, 1], [4, 1]])
+        x, y = top[0], top[1]
+        tclock[x] = tclock[y] = c
+        b = rnd.choice([256, 512, 1024])
+        for th in threads:
+            th[:] = [op for op in th if not (op[0] in ('sched', 'sched_abs') and op[2] in (x, y))]
+        threads[0] += [['sched', c, x, b], ['sched', c, y, b + rnd.choice([128, 256, 512])]]
+        tasks[x]['script'][0] = dict(do=[['tempo', c, *rnd.choice([[1, 2], [1, 1]])]],
+                                     res=rnd.choice([['ret', 256], ['raise'], ['stop'], ['none'], ['other']]))
     oscn = 0
     for i, th in enumerate(threads):
         if i > 0 and rnd.random() < 0.3:        # the OSC receive thread: incoming datagrams are dispatched via SystemClock
